@@ -18,6 +18,6 @@ RecOK(r) == r.hdr \in Acceptable(r.o, r.allow)
 Verdicts ==
     l >= 1 => LET r == Trace[l] IN
         /\ Monitor(RecOK(r), [l |-> l, l1 |-> L1Table(r.o, r.allow)])
-        /\ (L1(r.o, r.allow, Devs) = r.hdr \/ Emit("DRIFT", [l |-> l, l1 |-> L1(r.o, r.allow, Devs)]))
+        /\ (L1(r.o, r.allow, CodeDevs) = r.hdr \/ Emit("DRIFT", [l |-> l, l1 |-> L1(r.o, r.allow, CodeDevs)]))
 Accepted == TLCGet("stats").diameter - 1 = Len(Trace)
 =============================================================================
